@@ -209,7 +209,7 @@ theorem step_stmt_q (l : L) (q : Rune) (hq : q = 34 ∨ q = 39) (hs : l.state = 
     (hp : hasPrefixAt l.input l.pos 35 = false)
     (hr : rAt l = q) : Lex.step l =
       if rAt (nx l) == q then
-        (if rAt (nx (nx l)) == q then { nx (nx (nx l)) with state := .multiline }
+        (if rAt (nx (nx l)) == q then { nx (nx (nx l)) with stringOpen := q, state := .multiline }
          else emit (nx (nx l)) .STRING)
       else { nx l with stringOpen := q, state := .str } := by
   simp only [Lex.step, hs, next_eq', peek_rAt, hp, hr]
@@ -218,80 +218,72 @@ theorem step_stmt_q (l : L) (q : Rune) (hq : q = 34 ∨ q = 39) (hs : l.state = 
 
 /-! ### triple-quoted strings: the `.multiline` scan -/
 
-def isQuote (c : UInt8) : Bool := c == 34 || c == 39
-
-def headQ : Bytes → Bool
-  | c :: _ => isQuote c
+def headIs (q : UInt8) : Bytes → Bool
+  | c :: _ => c == q
   | [] => false
 
-def tripleHead : Bytes → Bool
-  | a :: b :: r => isQuote a && isQuote b && headQ r
+def tripleHead (q : UInt8) : Bytes → Bool
+  | a :: b :: r => a == q && b == q && headIs q r
   | _ => false
 
-/-- index of the first three consecutive quote characters (of either kind) -/
-def closeIdx : Bytes → Option Nat
+/-- index of the first three consecutive bytes `q` (the quote the string opened with) -/
+def closeIdx (q : UInt8) : Bytes → Option Nat
   | [] => none
-  | a :: r => if tripleHead (a :: r) then some 0 else (closeIdx r).map (· + 1)
+  | a :: r => if tripleHead q (a :: r) then some 0 else (closeIdx q r).map (· + 1)
 
-theorem tripleHead_of_not (x : UInt8) (r : Bytes) (hx : isQuote x = false) : tripleHead (x :: r) = false := by
+theorem tripleHead_of_not (q x : UInt8) (r : Bytes) (hx : (x == q) = false) : tripleHead q (x :: r) = false := by
   cases r <;> simp [tripleHead, hx]
 
-theorem closeIdx_skip : ∀ (w : Nat) (u : Bytes), w ≤ u.length → (∀ b ∈ u.take w, isQuote b = false) →
-    closeIdx u = (closeIdx (u.drop w)).map (· + w)
+theorem closeIdx_skip (q : UInt8) : ∀ (w : Nat) (u : Bytes), w ≤ u.length → (∀ b ∈ u.take w, (b == q) = false) →
+    closeIdx q u = (closeIdx q (u.drop w)).map (· + w)
   | 0, u, _, _ => by simp
   | w+1, [], h, _ => by simp at h
   | w+1, x :: r, h, hb => by
-    have hx : isQuote x = false := hb x (by simp)
-    have ih := closeIdx_skip w r (by simpa using h) (fun b hb' => hb b (by simp [hb']))
-    simp only [closeIdx, tripleHead_of_not x r hx, Bool.false_eq_true, if_false, List.drop_succ_cons, ih,
+    have hx : (x == q) = false := hb x (by simp)
+    have ih := closeIdx_skip q w r (by simpa using h) (fun b hb' => hb b (by simp [hb']))
+    simp only [closeIdx, tripleHead_of_not q x r hx, Bool.false_eq_true, if_false, List.drop_succ_cons, ih,
       Option.map_map]
     congr 1
 
-theorem isQuote_nat (c : UInt8) : ((c.toNat : Int) == 34 || (c.toNat : Int) == 39) = isQuote c := by
-  have h1 : ((c.toNat : Int) == 34) = (c == 34) := by
-    rw [Bool.eq_iff_iff]; simp [← UInt8.toNat_inj]; omega
-  have h2 : ((c.toNat : Int) == 39) = (c == 39) := by
-    rw [Bool.eq_iff_iff]; simp [← UInt8.toNat_inj]; omega
-  rw [h1, h2]; rfl
-
-theorem isQuote_hi (c : UInt8) (h : 0x80 ≤ c.toNat) : isQuote c = false := by
-  simp [isQuote, ← UInt8.toNat_inj]; omega
-
-/-- is the next rune a quote? -/
-theorem peekQ (l : L) (u : Bytes) (hu : l.input.drop l.pos = u) (hv : Valid u) :
-    (rAt l == 34 || rAt l == 39) = headQ u ∧
-    (headQ u = true → ∃ c r, u = c :: r ∧ isQuote c = true ∧ wAt l = 1 ∧ Valid r) ∧
-    (headQ u = false → u ≠ [] → 1 ≤ wAt l ∧ wAt l ≤ u.length ∧ (∀ b ∈ u.take (wAt l), isQuote b = false) ∧
+/-- is the next rune the (ASCII) byte `qb`? -/
+theorem peekQ (l : L) (u : Bytes) (qb : UInt8) (hq : qb.toNat < 0x80) (hu : l.input.drop l.pos = u) (hv : Valid u) :
+    (rAt l == (qb.toNat : Int)) = headIs qb u ∧
+    (headIs qb u = true → ∃ r, u = qb :: r ∧ wAt l = 1 ∧ Valid r) ∧
+    (headIs qb u = false → u ≠ [] → 1 ≤ wAt l ∧ wAt l ≤ u.length ∧ (∀ b ∈ u.take (wAt l), (b == qb) = false) ∧
       Valid (u.drop (wAt l))) := by
   rcases rw_cases l u hu hv with ⟨rfl, hr, hw⟩ |
       ⟨c, r, rfl, hc, hr, hw, hvr⟩ | ⟨w, r, hw1, hw2, hw3, hw, hr, hr1, hr2, hr3, hb, _, hvr⟩
-  · refine ⟨by rw [hr]; rfl, by simp [headQ], by simp⟩
-  · refine ⟨by rw [hr]; exact isQuote_nat c, ?_, ?_⟩
-    · intro h; exact ⟨c, r, rfl, h, hw, hvr⟩
+  · refine ⟨?_, by simp [headIs], by simp⟩
+    rw [hr]; simp [headIs, eof]
+  · refine ⟨?_, ?_, ?_⟩
+    · rw [hr]; simp only [headIs]
+      rw [Bool.eq_iff_iff]; simp [← UInt8.toNat_inj]; romega
+    · intro h
+      simp only [headIs, beq_iff_eq] at h
+      exact ⟨r, by rw [h], hw, hvr⟩
     · intro h _
       rw [hw]
-      exact ⟨by omega, by simp, by simpa [headQ] using h, by simpa using hvr⟩
+      exact ⟨by omega, by simp, by simpa [headIs] using h, by simpa using hvr⟩
   · have hne : u ≠ [] := by intro h; subst h; simp at hw3; omega
     obtain ⟨c, r', rfl⟩ := List.exists_cons_of_ne_nil hne
-    have hc : isQuote c = false := isQuote_hi c (hb c (by
-      have : 0 < w := by omega
+    have hc : 0x80 ≤ c.toNat := hb c (by
       obtain ⟨w', rfl⟩ := Nat.exists_eq_succ_of_ne_zero (by omega : w ≠ 0)
-      simp))
-    refine ⟨?_, ?_, ?_⟩
-    · rw [hr]; simp only [headQ, hc]
-      have : ¬ ((r : Int) = 34) ∧ ¬ ((r : Int) = 39) := by constructor <;> omega
-      simp [this]
-    · intro h; simp [headQ, hc] at h
+      simp)
+    have hcq : (c == qb) = false := by simp [← UInt8.toNat_inj]; omega
+    refine ⟨?_, by simp [headIs, hcq], ?_⟩
+    · rw [hr]; simp only [headIs, hcq]
+      simp; romega
     · intro _ _
       rw [hw]
-      exact ⟨by omega, hw3, fun b hb' => isQuote_hi b (hb b hb'), hvr⟩
-
+      refine ⟨by omega, hw3, fun b hb' => ?_, hvr⟩
+      have := hb b hb'
+      simp [← UInt8.toNat_inj]; omega
 
 theorem step_ml_eq (l : L) (hs : l.state = .multiline) : Lex.step l =
     if rAt l == eof then { errorf (nx l) "unterminated multiline string" with state := .done }
-    else if rAt l == 34 || rAt l == 39 then
-      if rAt (nx l) == 34 || rAt (nx l) == 39 then
-        if rAt (nx (nx l)) == 34 || rAt (nx (nx l)) == 39 then
+    else if rAt l == l.stringOpen then
+      if rAt (nx l) == l.stringOpen then
+        if rAt (nx (nx l)) == l.stringOpen then
           { emit (nx (nx (nx l))) .MULTILINE_STRING with state := .statements }
         else nx (nx l)
       else nx l
@@ -308,9 +300,12 @@ theorem map_add_emitted {s : Bytes} {t : Tok} {p k : Nat} {l' : L} {o : Option N
     have : p + (i + k) + 3 = p + k + i + 3 := by omega
     rw [this]; exact h
 
-theorem ml_scan (s : Bytes) (so bo : Rune) : ∀ (n : Nat) (u : Bytes), u.length = n → Valid u →
-    ∀ (p : Nat) (l : L), s.drop p = u → In s .multiline p so bo l →
-    ∃ l', Steps l l' ∧ (match closeIdx u with
+/-- the `.multiline` scan of a string opened with the (ASCII) quote `qb`: it ends just after the
+    first three consecutive `qb` -/
+theorem ml_scan (s : Bytes) (qb : UInt8) (hqb : qb.toNat < 0x80) (bo : Rune) :
+    ∀ (n : Nat) (u : Bytes), u.length = n → Valid u →
+    ∀ (p : Nat) (l : L), s.drop p = u → In s .multiline p (qb.toNat : Int) bo l →
+    ∃ l', Steps l l' ∧ (match closeIdx qb u with
       | some i => Emitted s .MULTILINE_STRING (p + i + 3) l'
       | none => Errored l') := by
   intro n
@@ -319,8 +314,9 @@ theorem ml_scan (s : Bytes) (so bo : Rune) : ∀ (n : Nat) (u : Bytes), u.length
     intro u hn hv p l hu hin
     obtain ⟨h1, h2, h3, h4, h5, h6, h7, h8, h9, h10, h11⟩ := hin
     have hstep := step_ml_eq l h2
+    rw [h9] at hstep
     have hul : l.input.drop l.pos = u := by rw [h1, h3]; exact hu
-    obtain ⟨hq1, hq1t, hq1f⟩ := peekQ l u hul hv
+    obtain ⟨hq1, hq1t, hq1f⟩ := peekQ l u qb hqb hul hv
     by_cases hnil : u = []
     · subst hnil
       refine ⟨Lex.step l, Steps.one h5, ?_⟩
@@ -334,10 +330,10 @@ theorem ml_scan (s : Bytes) (so bo : Rune) : ∀ (n : Nat) (u : Bytes), u.length
         have := (rAt_eof_iff l).1 h
         apply hnil; rw [← hu, ← h1, ← h3]; exact List.drop_eq_nil_of_le this
       simpa using this
-    -- advancing over `w` non-quote bytes
-    have adv : ∀ (l1 : L) (w : Nat), Lex.step l = l1 → In s .multiline (p + w) so bo l1 → 1 ≤ w → w ≤ u.length →
-        Valid (u.drop w) → closeIdx u = (closeIdx (u.drop w)).map (· + w) →
-        ∃ l', Steps l l' ∧ (match closeIdx u with
+    -- advancing over `w` bytes none of which starts a closing delimiter
+    have adv : ∀ (l1 : L) (w : Nat), Lex.step l = l1 → In s .multiline (p + w) (qb.toNat : Int) bo l1 → 1 ≤ w →
+        w ≤ u.length → Valid (u.drop w) → closeIdx qb u = (closeIdx qb (u.drop w)).map (· + w) →
+        ∃ l', Steps l l' ∧ (match closeIdx qb u with
           | some i => Emitted s .MULTILINE_STRING (p + i + 3) l'
           | none => Errored l') := by
       intro l1 w hs1 hin1 hw1 hw2 hvd hci
@@ -346,52 +342,52 @@ theorem ml_scan (s : Bytes) (so bo : Rune) : ∀ (n : Nat) (u : Bytes), u.length
       refine ⟨l', Steps.step h5 (hs1 ▸ hl'), ?_⟩
       rw [hci]
       exact map_add_emitted hres
-    cases hh : headQ u with
+    cases hh : headIs qb u with
     | false =>
       obtain ⟨hw1, hw2, hb, hvd⟩ := hq1f hh hnil
       refine adv (nx l) (wAt l) ?_ ⟨h1, h2, by simp [h3], h4, h5, h6, h7, h8, h9, h10, h11⟩ hw1 hw2 hvd
-        (closeIdx_skip _ u hw2 hb)
+        (closeIdx_skip qb _ u hw2 hb)
       rw [hstep, hne, hq1, hh]; simp
     | true =>
-      obtain ⟨c, r, rfl, hc, hw, hvr⟩ := hq1t hh
+      obtain ⟨r, rfl, hw, hvr⟩ := hq1t hh
       have hul2 : (nx l).input.drop (nx l).pos = r := by
         simp only [nx_input, nx_pos, hw, h1, h3]; exact drop_succ_of_drop hu
-      obtain ⟨hq2, hq2t, hq2f⟩ := peekQ (nx l) r hul2 hvr
-      cases hh2 : headQ r with
+      obtain ⟨hq2, hq2t, hq2f⟩ := peekQ (nx l) r qb hqb hul2 hvr
+      cases hh2 : headIs qb r with
       | false =>
         refine adv (nx l) 1 ?_ ⟨h1, h2, by simp [h3, hw], h4, h5, h6, h7, h8, h9, h10, h11⟩ (by omega) (by simp)
           (by simpa using hvr) ?_
         · rw [hstep, hne, hq1, hh, hq2, hh2]; simp
-        · have : tripleHead (c :: r) = false := by
+        · have : tripleHead qb (qb :: r) = false := by
             cases r with
             | nil => rfl
-            | cons c2 r2 => simp [tripleHead, headQ] at hh2 ⊢; simp [hh2]
+            | cons c2 r2 => simp [tripleHead, headIs] at hh2 ⊢; simp [hh2]
           simp [closeIdx, this]
       | true =>
-        obtain ⟨c2, r2, rfl, hc2, hw2, hvr2⟩ := hq2t hh2
+        obtain ⟨r2, rfl, hw2, hvr2⟩ := hq2t hh2
         have hul3 : (nx (nx l)).input.drop (nx (nx l)).pos = r2 := by
           simp only [nx_input, nx_pos, hw, hw2, h1, h3]
           exact drop_succ_of_drop (drop_succ_of_drop hu)
-        obtain ⟨hq3, hq3t, hq3f⟩ := peekQ (nx (nx l)) r2 hul3 hvr2
-        cases hh3 : headQ r2 with
+        obtain ⟨hq3, hq3t, hq3f⟩ := peekQ (nx (nx l)) r2 qb hqb hul3 hvr2
+        cases hh3 : headIs qb r2 with
         | false =>
           refine adv (nx (nx l)) 2 ?_ ⟨h1, h2, by simp [h3, hw, hw2], h4, h5, h6, h7, h8, h9, h10, h11⟩ (by omega)
             (by simp) (by simpa using hvr2) ?_
           · rw [hstep, hne, hq1, hh, hq2, hh2, hq3, hh3]; simp
-          · have t1 : tripleHead (c :: c2 :: r2) = false := by simp [tripleHead, hh3]
-            have t2 : tripleHead (c2 :: r2) = false := by
+          · have t1 : tripleHead qb (qb :: qb :: r2) = false := by simp [tripleHead, hh3]
+            have t2 : tripleHead qb (qb :: r2) = false := by
               cases r2 with
               | nil => rfl
-              | cons c3 r3 => simp [tripleHead, headQ] at hh3 ⊢; simp [hh3]
+              | cons c3 r3 => simp [tripleHead, headIs] at hh3 ⊢; simp [hh3]
             simp [closeIdx, t1, t2, Option.map_map]
             congr 1
         | true =>
           refine ⟨Lex.step l, Steps.one h5, ?_⟩
-          have t1 : tripleHead (c :: c2 :: r2) = true := by simp [tripleHead, hh3, hc, hc2]
+          have t1 : tripleHead qb (qb :: qb :: r2) = true := by simp [tripleHead, hh3]
           simp only [closeIdx, t1, if_true]
           rw [hstep, hne, hq1, hh, hq2, hh2, hq3, hh3]
           simp only [Bool.false_eq_true, if_false, if_true]
-          obtain ⟨c3, r3, rfl, hc3, hw3, hvr3⟩ := hq3t hh3
+          obtain ⟨r3, rfl, hw3, hvr3⟩ := hq3t hh3
           exact ⟨h1, rfl, by simp [h3, hw, hw2, hw3], by simp [h3, hw, hw2, hw3],
             by simp [h1, h3, h4, hw, hw2, hw3, slice], h6, h7, h8⟩
 
@@ -869,10 +865,6 @@ theorem str_scan (s : Bytes) (qb : UInt8) (hq : qb = 34 ∨ qb = 39) : ∀ (n : 
 
 /-! ### the first item of a string-shaped spelling -/
 
-def headIs (q : UInt8) : Bytes → Bool
-  | c :: _ => c == q
-  | [] => false
-
 /-- type and length of the first token, none = an error item -/
 def firstTok (s : Bytes) : Option (Tok × Nat) :=
   match s with
@@ -880,7 +872,7 @@ def firstTok (s : Bytes) : Option (Tok × Nat) :=
   | q :: r0 =>
     if q == 96 then (findB 96 r0).map fun i => (Tok.QUOTED_STRING, i + 2)
     else if headIs q r0 then
-      (if headIs q (r0.drop 1) then (closeIdx (r0.drop 2)).map fun i => (Tok.MULTILINE_STRING, i + 6)
+      (if headIs q (r0.drop 1) then (closeIdx q (r0.drop 2)).map fun i => (Tok.MULTILINE_STRING, i + 6)
        else some (Tok.STRING, 2))
     else (lexStr (r0.length + 1) q r0).map fun k => (Tok.STRING, k + 1)
 
@@ -966,7 +958,7 @@ theorem first_item (s : Bytes) (hv : Valid s) (c0 : UInt8) (r0 : Bytes) (hs : s 
       have hul1 : (nx l0).input.drop (nx l0).pos = r0 := by rw [nx_input, e1, hp1]; exact hd1
       obtain ⟨hpk1, hpk1t⟩ := peekEq (nx l0) r0 c0 hqlt hul1 hvr
       have hft : firstTok s = if headIs c0 r0 then
-          (if headIs c0 (r0.drop 1) then (closeIdx (r0.drop 2)).map fun i => (Tok.MULTILINE_STRING, i + 6)
+          (if headIs c0 (r0.drop 1) then (closeIdx c0 (r0.drop 2)).map fun i => (Tok.MULTILINE_STRING, i + 6)
            else some (Tok.STRING, 2))
           else (lexStr (r0.length + 1) c0 r0).map fun k => (Tok.STRING, k + 1) := by
         rw [hs]; simp only [firstTok]; rw [if_neg (by simp [h96])]
@@ -1011,12 +1003,12 @@ theorem first_item (s : Bytes) (hv : Valid s) (c0 : UInt8) (r0 : Bytes) (hs : s 
           simp only [if_true] at hstep ⊢
           have hp3 : (nx (nx (nx l0))).pos = 3 := by simp [e2, hw, hw1, hw2]
           have hd3 : s.drop 3 = r2 := by rw [hs]; rfl
-          have hin : In s .multiline 3 0 0 (Lex.step l0) := by
-            rw [hstep]; exact ⟨e1, rfl, hp3, e4, e5, e6, e7, e8, e9, e10, e11⟩
-          obtain ⟨l', hl', hres⟩ := ml_scan s 0 0 r2.length r2 rfl hvr2 3 _ hd3 hin
+          have hin : In s .multiline 3 (c0.toNat : Int) 0 (Lex.step l0) := by
+            rw [hstep]; exact ⟨e1, rfl, hp3, e4, e5, e6, e7, e8, rfl, e10, e11⟩
+          obtain ⟨l', hl', hres⟩ := ml_scan s c0 hqlt 0 r2.length r2 rfl hvr2 3 _ hd3 hin
           refine ⟨l', hl', ?_⟩
           simp only [List.drop_succ_cons, List.drop_zero]
-          cases hf : closeIdx r2 with
+          cases hf : closeIdx c0 r2 with
           | none => rw [hf] at hres; exact hres
           | some i =>
             rw [hf] at hres
